@@ -1,5 +1,5 @@
 (* C12 - every pose reachable through the API stays well-formed and serialisable.
-   Model: model/C12_Model.v (abstract pose state + operation language; F11, F7/F8 as repaired).
+   Model: model/C12_Model.v (abstract pose state + operation language).
    [Inv] (proofs/C12_Inv.v): header non-empty, every component has format length D+1, body shape
    (F, P, total header points, D), confidence shape (F, P, total header points), and a cell is masked - in every
    dimension - iff its confidence is zero.  [pre] holds the property's preconditions the invariant depends on
@@ -157,7 +157,7 @@ Theorem transcribed_methods_tie :
   /\ Gen_C12.header_bbox_component_args = ["c.name"; "box_points"; "box_limbs"; "box_colors"; "c.format"]%string
   /\ Gen_C12.header_total_points = ["return sum(map(lambda c: len(c.points), self.components))"]%string
   /\ Gen_C12.header_num_dims = ["return max([len(c.format) for c in self.components]) - 1"]%string
-  /\ Gen_C12.pose_copy = ["return self.__class__(self.header, self.body.copy())"]%string
+  /\ Gen_C12.pose_copy = ["return self.__class__(deepcopy(self.header), self.body.copy())"]%string
   /\ Gen_C12.body_slice_step = C12_GenTie.slice_step_literal /\ Gen_C12.body_select_frames = C12_GenTie.select_frames_literal
   /\ Gen_C12.body_frame_dropout_given_percent = C12_GenTie.dropout_literal
   /\ Gen_C12.numpy_body_flip = C12_GenTie.flip_literal /\ Gen_C12.numpy_body_get_points = C12_GenTie.get_points_literal
